@@ -208,12 +208,12 @@ func C32IsClosed(c *Connection) bool {
 	}
 }
 
-// C32NewConnectionLite is C32NewConnection with a configurable number of frame workers: the
-// sequential frame processor (the real drainFrames on frameCh) and fast fast-lane workers (the
-// real NewConnection starts 4; they only serve UDP/ICMP frames). Used by the schedule
+// C32NewConnectionLite is C32NewConnection with a configurable number of frame workers: seq
+// sequential frame processors (the real drainFrames on frameCh; the real NewConnection starts 1)
+// and fast fast-lane workers (the real NewConnection starts 4; they only serve UDP/ICMP frames). Used by the schedule
 // enumeration, where every idle worker thread multiplies the number of interleavings without
 // adding behaviour. The field initialisation mirrors NewConnection + PerformHandshake.
-func (m *Manager) C32NewConnectionLite(remote identity.AgentID, dialer bool, w *C32Wire, fast int) *Connection {
+func (m *Manager) C32NewConnectionLite(remote identity.AgentID, dialer bool, w *C32Wire, seq, fast int) *Connection {
 	connCfg, _ := m.buildConnectionConfig(nil)
 	pc := &c32PeerConn{w: w, dialer: dialer}
 	ctx, cancel := context.WithCancel(context.Background())
@@ -234,7 +234,9 @@ func (m *Manager) C32NewConnectionLite(remote identity.AgentID, dialer bool, w *
 	}
 	c.state.Store(int32(StateHandshaking))
 	c.updateActivity()
-	sched.Go(func() { c.drainFrames(c.frameCh) })
+	for i := 0; i < seq; i++ {
+		sched.Go(func() { c.drainFrames(c.frameCh) })
+	}
 	for i := 0; i < fast; i++ {
 		sched.Go(func() { c.drainFrames(c.fastLaneCh) })
 	}
